@@ -103,3 +103,11 @@ impl SimRng {
 		out
 	}
 }
+
+pub fn hex(b: &[u8]) -> String {
+	let mut s = String::with_capacity(b.len() * 2);
+	for x in b {
+		s.push_str(&format!("{:02x}", x));
+	}
+	s
+}
